@@ -2458,12 +2458,15 @@ impl XmlElement {
     fn find_nameapce_uri(&self, prefix: &str) -> error::Result<Option<NamespaceUri>> {
         for namespace in self.namespace_attributes().iter() {
             if prefix == namespace.borrow().local_name() {
-                return Ok(Some(NamespaceUri::try_from(&namespace)?));
+                // xmlns="" undeclares the default namespace.
+                let uri = NamespaceUri::try_from(&namespace)?;
+                return Ok(Some(uri).filter(|v| !v.value().is_empty()));
             }
         }
 
         for namespace in self.in_scope_namespace()?.iter() {
-            if prefix == namespace.borrow().prefix().unwrap_or_default() {
+            // The default namespace has no prefix; it is looked up with the key "xmlns".
+            if prefix == namespace.borrow().prefix().unwrap_or("xmlns") {
                 return Ok(Some(NamespaceUri::from(&namespace)));
             }
         }
